@@ -842,6 +842,13 @@ class BatchCompletionCallBack(object):
 
         # Schedule the next batch of tasks.
         with self.parallel._lock:
+            # Same edge case as in `__call__`: this callback can reach this
+            # point after the `parallel` instance has been reset and a new call
+            # has been issued. Its batch must neither be counted as completed
+            # nor trigger a dispatch for the new call.
+            if self.parallel._call_id != self.parallel_call_id:
+                return
+
             self.parallel.n_completed_tasks += self.batch_size
             self.parallel.print_progress()
             if self.parallel._original_iterator is not None:
